@@ -32,7 +32,8 @@ ASSUMPTIONS = [
     "theorems speak about canonical (TCAG) sequences; gapped / ambiguous / lower-case input is covered by the "
     "correspondence and by the X/- rules of the model only",
     "numpy byte layout of k-mer index arrays is modelled as little-endian with width chosen by get_array_type",
-    "collection / alignment / app entry points are exercised against the oracle, not modelled in Lean",
+    "alignment / app entry points are exercised against the oracle, not modelled in Lean; the derived state of a collection "
+    "(reversed flags, views) is not modelled: collection theorems speak about the displayed rows",
 ]
 
 GEN_PATH = LEAN / "CogentModel" / "Gen" / "C12Tables.lean"
@@ -1122,7 +1123,9 @@ def spec_check(ctx, budget):
         "implementation vs oracle: every code x lengths 9,10,11 x 3 frames x 2 strands through old/new translate and "
         "sixframes; random canonical / stop-rich sequences of every length 0-40, and of 765-900 nt (>= 256 codons); "
         "Sequence.get_translation old/new (dna, rna, via rc'd view) x stop options; SequenceCollection / ArrayAlignment / "
-        "Alignment / new SequenceCollection / app.translate_seqs / translate_frames; complement, resolve, re-encode on all "
+        "Alignment / new SequenceCollection / app.translate_seqs / translate_frames, each also on collections in a DERIVED state "
+        "(random history of rc, take_seqs, rename_seqs, copy, moltype conversion, alignment slicing before the call; oracle = the rows "
+        "displayed at the time of the call); complement, resolve, re-encode on all "
         "IUPAC symbols and base sets of 4 moltypes; rc involution on random IUPAC strings (moltype and sequence level); "
         "witnesses of repaired findings (regression corpus); get_code by id/str/name x every accessor of every code; "
         "translate on gapped/ambiguous/RNA/lower-case text; has_terminal_stop / trim_stop_codon(s) incl. gap-padded stops; "
